@@ -26,7 +26,8 @@ def cases(tier, seed):
     for i in range(n):
         yield {"mesh": gen.random_mesh(rng, 120 if tier == "quick" else 800, families=["voronoi", "merged", "merged", "polyhedron", "delaunay", "cubed_sphere"]),
                "extra_width": int(rng.choice([0, 0, 2])), "dseed": int(rng.integers(0, 10**6)),
-               "dtype": str(rng.choice(["float64", "float32", "int64", "bool"])), "lead": [int(x) for x in rng.integers(1, 4, size=int(rng.integers(0, 3)))]}
+               "dtype": str(rng.choice(["float64", "float32", "int64", "bool"])), "lead": [int(x) for x in rng.integers(1, 4, size=int(rng.integers(0, 3)))],
+               "layout": str(rng.choice(["C", "C", "F", "T", "strided"])), "big_offset": bool(rng.random() < 0.25)}
 
 
 def make_data(rng, dtype, shape):
@@ -54,8 +55,24 @@ def run_case(ctx, case):
     rng = np.random.default_rng(case["dseed"])
     lead = case["lead"]
     data = make_data(rng, case["dtype"], tuple(lead) + (m.n_node,))
+    if case.get("big_offset") and case["dtype"] == "float64":
+        # values large compared with their spread (surface pressure in Pa): variance / std must not cancel
+        data = 101325.0 + 0.05 * (data - 1.0)
     dims = ["d%d" % i for i in range(len(lead))] + ["n_node"]
-    uxda = U.UxDataArray(data.copy(), dims=dims, uxgrid=g, name="v")
+    # memory layout of the data: C, Fortran order, a transposed view of node-major storage, a strided view
+    layout = case.get("layout", "C")
+    if layout == "F":
+        stored = np.asfortranarray(data)
+    elif layout == "T":
+        stored = np.ascontiguousarray(data.T).T
+    elif layout == "strided":
+        wide = np.zeros(data.shape[:-1] + (2 * data.shape[-1],), dtype=data.dtype)
+        wide[..., ::2] = data
+        stored = wide[..., ::2]
+    else:
+        stored = data.copy()
+    ctx.observe("layout_" + layout)
+    uxda = U.UxDataArray(stored, dims=dims, uxgrid=g, name="v")
     mixed = len({len(f) for f in m.faces}) > 1
     en = None
     for dest in ("face", "edge"):
@@ -65,7 +82,7 @@ def run_case(ctx, case):
             en = np.asarray(g.edge_node_connectivity.values)
             elems = [list(map(int, r)) for r in en]
         for agg in AGGS:
-            sig = {"agg": agg, "dest": dest, "dtype": case["dtype"], "mixed": mixed}
+            sig = {"agg": agg, "dest": dest, "dtype": case["dtype"], "mixed": mixed, "layout": layout, "rank": len(lead) + 1}
             try:
                 res = getattr(uxda, "topological_" + agg)(destination=dest)
             except Exception as e:
